@@ -270,6 +270,16 @@ func c17RuntimeRun(steps []c17Step) (string, error) {
 				if err != nil || back != 13 {
 					return "runtime-typed-mask-roundtrip-" + encName, fmt.Errorf("step %d: mask value 13 of 0x%06X as a value of its Go type is written as %s and reads back as %d, %v", i, maskTag, out, back, err)
 				}
+				// bits that have no name (the reserved second bit, bits beyond the registered ones) are numbers like any
+				// other: whatever is written for them reads back as the same number
+				for _, v := range []vendorMaskA{2, 7, 0x10, 0x1F, 0x40000002} {
+					var o2 []byte
+					var b2 vendorMaskA
+					err := safely(func() error { o2 = codec.m(v); return codec.u(o2, &b2) })
+					if err != nil || b2 != v {
+						return "runtime-mask-unnamed-bit-lost-" + encName, fmt.Errorf("step %d: mask value 0x%X of 0x%06X (flags %q, the second bit reserved) is written as %s and reads back as 0x%X, %v", i, int32(v), maskTag, maskNames, o2, int32(b2), err)
+					}
+				}
 				for _, b := range []int{0, 2, 3} {
 					if !strings.Contains(string(out), maskNames[b]) {
 						return "runtime-typed-mask-not-written-by-name-" + encName, fmt.Errorf("step %d: mask value 13 of 0x%06X as a value of its Go type is written as %s", i, maskTag, out)
